@@ -47,7 +47,7 @@ let sorted_ids (l : n list list) : string list = List.sort compare (List.map x_o
 let planner () =
   let n = ref 0 and builds = ref 0 and colliding = ref 0 and multi = ref 0 and notin = ref 0
   and planfail = ref 0 and planfail_known = ref 0 and opmis = ref 0 and parse = ref 0
-  and hyg_multi = ref 0 and fullset = ref 0 and printed = ref 0 in
+  and hyg_multi = ref 0 and fullset = ref 0 and printed = ref 0 and capped = ref 0 in
   let ops = Hashtbl.create 16 in
   let distinct = Hashtbl.create 100000 in
   let bump op = Hashtbl.replace ops op (1 + (try Hashtbl.find ops op with Not_found -> 0)) in
@@ -73,8 +73,13 @@ let planner () =
                 let hyg = hygienicb ids in
                 let r = if sout = "nil" then None else Some (parse_emap sout) in
                 let full = (not hyg) || (!builds land 15 = 0) in
+                (* more than 6 current keys (never on the unchanged tree): 7! orders are not enumerated *)
+                let big = List.length cur > 6 in
+                if big then incr capped;
                 let set =
-                  if full then (incr fullset; build_pending_set cur des)
+                  if big then [build_pending repaired (keys cur) cur des;
+                               build_pending repaired (List.rev (keys cur)) cur des]
+                  else if full then (incr fullset; build_pending_set cur des)
                   else [build_pending repaired (keys cur) cur des] in
                 if not hyg then begin
                   incr colliding;
@@ -124,9 +129,9 @@ let planner () =
    with End_of_file -> ());
   let opc op = try Hashtbl.find ops op with Not_found -> 0 in
   Printf.printf
-    "SUMMARY n=%d builds=%d distinct_builds=%d colliding=%d multi=%d notinmodel=%d planfail=%d planfail_known=%d opmismatch=%d parse=%d hyg_multi=%d fullset=%d new=%d actions=%d commit=%d setrt=%d clrrt=%d remove=%d count=%d\n"
+    "SUMMARY n=%d builds=%d distinct_builds=%d colliding=%d multi=%d notinmodel=%d planfail=%d planfail_known=%d opmismatch=%d parse=%d hyg_multi=%d fullset=%d capped=%d new=%d actions=%d commit=%d setrt=%d clrrt=%d remove=%d count=%d\n"
     !n !builds (Hashtbl.length distinct) !colliding !multi !notin !planfail !planfail_known !opmis !parse
-    !hyg_multi !fullset (opc "new") (opc "actions") (opc "commit") (opc "setrt") (opc "clrrt") (opc "remove") (opc "count")
+    !hyg_multi !fullset !capped (opc "new") (opc "actions") (opc "commit") (opc "setrt") (opc "clrrt") (opc "remove") (opc "count")
 
 (* ------------------------------------------------------------------ runner *)
 
